@@ -594,3 +594,21 @@ theorem faithfulVariant : (ps : List TyShape) → FaithfulVariant ps
 end
 
 end Idl.Layout
+
+namespace Idl.Layout
+open Common
+
+theorem encodeFields_append : (pre post : List TyShape) → (vpre vpost : List Val) →
+    wfFields pre vpre = true →
+    encodeFields (pre ++ post) (vpre ++ vpost) = encodeFields pre vpre ++ encodeFields post vpost
+  | [], post, vpre, vpost, h => by
+    cases vpre <;> simp [wfFields] at h
+    simp [encodeFields]
+  | f :: pre, post, vpre, vpost, h => by
+    cases vpre with
+    | nil => simp [wfFields] at h
+    | cons v vpre =>
+      simp only [wfFields, Bool.and_eq_true] at h
+      simp only [List.cons_append, encodeFields, encodeFields_append pre post vpre vpost h.2, List.append_assoc]
+
+end Idl.Layout
